@@ -58,7 +58,7 @@ def gen_c01(seed, tier):
 
 def gen_c02(seed, tier):
     desc, rng = base_desc(seed, tier, p_nested=0.45, p_kw=0.45, p_unpack=0.15, p_gather=0.12, p_opaque=0.3,
-                          p_const=0.2)
+                          p_const=0.2, p_shared_list=0.25 if seed % 3 == 1 else 0.0)
     desc["ops"][0]["cfg"]["retry"] = None
     if seed % 10 == 7:
         # the same Plan object run by two or three threads at the same time: every run returns the reference value
@@ -384,6 +384,10 @@ class ReleaseMonitor:
     def on_worker_moves_on(self):
         tid = self.sim.current.tid
         nid = self.pending_failed.pop(tid, None)
+        if nid is None:
+            # a call that ended without any notification (it raised a BaseException that is not an Exception): it has
+            # finished, too, once its worker starts the next node
+            nid = self.last_ended.pop(tid, None)
         if nid is not None:
             self.finished.add(nid)
             self.failed.add(nid)
@@ -463,7 +467,7 @@ def gen_c16(seed, tier):
         calls = {}
         for c in consumers:
             if rng.random() < 0.6:
-                calls[str(c)] = dict(exc=rng.choice(["E1", "E2"]))
+                calls[str(c)] = dict(exc=rng.choice(["E1", "E2", "B1", "F2", "SystemExit"]))
         op["faults"] = dict(calls=calls)
         op["cfg"].update(max_errors=None, no_keep_exc=True, max_workers=rng.choice([1, 2, 3]))
         # make everything needed, so that the failing consumers do run
@@ -528,7 +532,18 @@ def execute(prop, desc):  # noqa: F811
 def gen_c13(seed, tier):  # noqa: F811
     rng0 = worldgen.child_rng(seed, "c13")
     registry = rng0.random() < 0.5
-    mode = rng0.choice(["single", "single", "concurrent", "repeat", "foreign", "physical"])
+    mode = rng0.choice(["single", "single", "concurrent", "repeat", "foreign", "physical", "empty"])
+    if mode == "empty":
+        # boundary: a Plan without any node, an output made of plain values only
+        out = rng0.choice([["L", [["c", 1], ["c", "k"]]], ["T", [["c", None]]], ["D", [[["c", "k"], ["c", 2]]]], ["c", 5]])
+        world = dict(nodes=[], stores={}, late_deps=[], output=out)
+        cfg = dict(max_workers=rng0.choice([1, 2]), scheduler=None, max_errors=0, retry=None, stale_workers=None, output=True,
+                   dry_run=rng0.random() < 0.5, transform=rng0.choice([None, None, "extra-call"]))
+        sub = rng0.choice(["single", "concurrent", "repeat"])
+        if sub == "concurrent":
+            cfg["transform"] = None
+        return dict(seed=seed, world=world, ops=[dict(op="run", cfg=cfg)], sched=worldgen.gen_sched(rng0), mode=sub,
+                    clients=rng0.choice([2, 3]), empty=True)
     if mode in ("foreign", "physical"):
         registry = True
     desc, rng = base_desc(seed, tier, registry=registry, faults=(mode == "single" and rng0.random() < 0.5),
@@ -924,8 +939,12 @@ def gen_c07(seed, tier):  # noqa: F811
         # `progress=[...]`: a bundled display with its update thread next to a member that cannot start / finish
         rng = worldgen.child_rng(seed, "c07p")
         op = desc["ops"][0]
-        op["cfg"]["progress"] = "bundled-fail"
+        op["cfg"]["progress"] = rng.choice(["bundled-fail", "bundled-sinkfail"])
         op["cfg"]["fail_kind"] = rng.choice(["enter", "exit"])
+        op["cfg"]["sink_fails_from"] = rng.choice([1, 1, 2, 3])
+        for n in desc["world"]["nodes"]:
+            if n["kind"] == "call" and rng.random() < 0.5:
+                n["dur"] = rng.choice([1.0, 5.0, 40.0])
     if seed % 7 == 0 and not desc.get("cyclic"):
         # resource failure while the pool starts: Thread.start raises for the k-th thread
         rng = worldgen.child_rng(seed, "c07t")
